@@ -192,7 +192,7 @@ class DataFrame:
         unique_rows = [
             x
             for x in self._rows
-            if hash(x) not in seen and not seen.add(hash(x))  # type:ignore
+            if x not in seen and not seen.add(x)  # type:ignore
         ]
         return DataFrame(rows=unique_rows, schema=self._schema)
 
